@@ -404,9 +404,11 @@ def draw_points(prec, pen):
                 pen.addComponent(name, t)
 
 
-def rotate_points(prec, rnd):
+def rotate_points(prec, rnd, starts=None):
     """Rotate the start of closed contours (a closed point contour may start anywhere,
-    also on an off-curve point); decorate some points with names/identifiers."""
+    also on an off-curve point); decorate some points with names/identifiers.
+    starts: optional list of preferred start point types per contour ("curve", "line", "qcurve", None = off-curve,
+    "any"), cycled: every contour of a multi-contour glyph gets to start on every point type."""
     out, cur = [], None
     n = 0
     for ent in prec:
@@ -419,6 +421,11 @@ def rotate_points(prec, rnd):
         elif ent[0] == "endPath":
             if cur and cur[0][1][1] != "move" and len(cur) > 1:
                 k = rnd.randrange(len(cur))
+                if starts:
+                    want = starts[(n - 1) % len(starts)]
+                    cand = [i for i, e in enumerate(cur) if e[1][1] == want] if want != "any" else []
+                    if cand:
+                        k = rnd.choice(cand)
                 cur = cur[k:] + cur[:k]
             for e in cur:
                 pt, st, sm, nm, idt = e[1]
@@ -1246,6 +1253,7 @@ def cases(tier, seed):
         ("segpoint", 8, 40, 200), ("transform", 6, 32, 200), ("reverse", 8, 48, 200), ("round", 5, 28, 200),
         ("filter", 8, 40, 150), ("pointnative", 6, 32, 150), ("record", 4, 20, 120), ("chain", 12, 80, 120),
         ("ttglyph", 10, 56, 150), ("t2", 8, 48, 120), ("measure", 8, 40, 150), ("svg", 6, 32, 150), ("algebra", 3, 12, 400),
+        ("svgparse", 4, 20, 300), ("measure2", 4, 20, 120),
     ]
     out = []
     for fam, q, t, n in plan:
@@ -1345,7 +1353,9 @@ def fam_ttglyph(rnd, ctx):
 
     def build():
         if point:
-            draw_points(rotate_points(O.rec_to_points(rec), rnd), pen)
+            kinds = ["curve", "line", "qcurve", None, "any"]
+            rnd.shuffle(kinds)
+            draw_points(rotate_points(O.rec_to_points(rec), rnd, starts=kinds if rnd.random() < 0.7 else None), pen)
         else:
             draw(rec, pen)
         return pen.glyph(dropImpliedOnCurves=drop)
@@ -1388,7 +1398,9 @@ def fam_ttglyph(rnd, ctx):
         return
     # 1. the glyph data (interpreted by the spec-written reader) is the rounded, closed input
     any_open = any(not c["closed"] for c in src)
-    levels = (1,) if (drop or o or comps or any_open) else (1, 2)
+    # (rounding fractional coordinates can make the last point coincide with the first: whether that is one point or
+    #  two depends on the protocol, so the point-preserving level is only asserted on integer input)
+    levels = (1,) if (drop or o or comps or any_open or mode in GEN.FRAC_MODES) else (1, 2)
     ok = True
     for lv in levels:
         ctx.judged()
@@ -1831,3 +1843,157 @@ def fam_algebra(rnd, ctx):
 
 
 FAMILIES.update({"measure": fam_measure, "svg": fam_svg, "algebra": fam_algebra})
+
+
+# ---------------------------------------------------------------- family: SVG path data against an independent interpreter
+def fam_svgparse(rnd, ctx):
+    """parse_path on generated path data (every command, absolute and relative, implicitly repeated after every other
+    command, compact number spellings) against the interpreter written from SVG 1.1 section 8.3, and against the
+    spelled-out form of the same path."""
+    from fontTools.pens.recordingPen import RecordingPen
+    from fontTools.svgLib.path import parse_path
+    from vmon.oracle import c14_svg as SV
+    cmds = SV.gen_commands(rnd)
+    d_imp = SV.render(cmds, rnd, implicit=True, compact=rnd.random() < 0.5)
+    d_exp = SV.render(cmds, rnd, implicit=False)
+    w = {"d": d_imp, "spelled_out": d_exp}
+
+    def go(d):
+        r = RecordingPen()
+        parse_path(d, r)
+        return r.value
+
+    got = lib_call(ctx, "parse_path", "implicit", lambda: go(d_imp), w)
+    got2 = lib_call(ctx, "parse_path", "explicit", lambda: go(d_exp), w)
+    try:
+        want = SV.interpret(d_imp)
+        want2 = SV.interpret(d_exp)
+    except ValueError as e:
+        ctx.inconclusive("svg oracle rejects generated data: %r" % (e,))
+        return
+    if want != want2:
+        ctx.inconclusive("svg oracle: implicit and spelled-out forms differ")
+        return
+    E = O.canon(want)
+    tol = TOL_BITS * O.magnitude(E) * (8 + sum(len(g) for _, g in cmds))     # relative coordinates accumulate
+    letters = "".join(sorted({c for c, g in cmds}))
+    runs = "".join(sorted({c for c, g in cmds if len(g) > 1}))
+    pairs = set()
+    prev = None
+    for c, g in cmds:
+        if prev is not None and c.upper() in "ST":
+            pairs.add(prev.upper() + ">" + c.upper() + ("*" if len(g) > 1 else ""))
+        prev = c
+    for nm, g in (("implicit", got), ("explicit", got2)):
+        ctx.judged()
+        try:
+            Gc = O.canon(O.norm_rec(g))
+        except ValueError:
+            violation(ctx, "parse_path", nm, "L1", "pen calls are not a valid sequence", letters, "parse_path emitted an invalid call sequence", dict(w, parsed=g))
+            continue
+        ok, why, idx = O.contours_match(E, Gc, tol, level=1)
+        if not ok:
+            violation(ctx, "parse_path", nm, "L1", why, "smooth-run" if any("*" in p for p in pairs) else "path",
+                      "parsed path differs from the SVG 1.1 reading of the data", dict(w, parsed=g, expected=want, contour_index=idx))
+    _notes["judged/parse_path"] += 1
+    ctx.nontrivial("svgparse|%s|%s" % (letters, runs))
+    for p in pairs:
+        ctx.nontrivial("svgparse-smooth|" + p)
+
+
+FAMILIES["svgparse"] = fam_svgparse
+
+
+# ---------------------------------------------------------------- family: measuring pens, original vs decomposed spelling
+def _plain_record(contours):
+    """canonical contours -> record of single-segment calls (floats): the same outline spelled without super-Beziers,
+    implied points or single-argument curves"""
+    rec = []
+    for c in contours:
+        rec.append(("moveTo", (O.fl(c["start"]),)))
+        for s_ in c["segs"]:
+            if s_[0] == "l":
+                rec.append(("lineTo", (O.fl(s_[2]),)))
+            elif s_[0] == "q":
+                rec.append(("qCurveTo", (O.fl(s_[2]), O.fl(s_[3]))))
+            else:
+                rec.append(("curveTo", (O.fl(s_[2]), O.fl(s_[3]), O.fl(s_[4]))))
+        rec.append(("closePath" if c["closed"] else "endPath", ()))
+    return rec
+
+
+def fam_measure2(rnd, ctx):
+    """Every measuring pen (the BasePen subclasses that ask the base class for the current point) must give the same
+    answer for an outline and for its decomposed spelling (plain lines, quadratics and cubics computed by the oracle)."""
+    from fontTools.pens.boundsPen import BoundsPen, ControlBoundsPen
+    from fontTools.pens.areaPen import AreaPen
+    from fontTools.pens.perimeterPen import PerimeterPen
+    from fontTools.pens.pointInsidePen import PointInsidePen
+    from fontTools.pens.momentsPen import MomentsPen
+    from fontTools.pens.statisticsPen import StatisticsPen
+    mode = rnd.choice(["grid", "int", "int", "small", "half", "dyadic", "dec"])
+    rec, mode, _ = _gen(rnd, mode=mode, closed_only=True, single=False)
+    reset_streams()
+    cs = O.canon(O.norm_rec(rec))
+    plain = _plain_record(cs)
+    m = float(O.magnitude(cs))
+    w = {"input": rec, "decomposed": plain}
+    feats = O.rec_class(cs, False, mode in GEN.FRAC_MODES)
+
+    def measure(r):
+        out = {}
+        b = BoundsPen(None); draw(r, b); out["bounds"] = b.bounds
+        cb = ControlBoundsPen(None); draw(r, cb); out["controlBounds"] = cb.bounds
+        a = AreaPen(None); draw(r, a); out["area"] = a.value
+        pp = PerimeterPen(None); draw(r, pp); out["perimeter"] = pp.value
+        mp = MomentsPen(None); draw(r, mp)
+        for k in ("area", "momentX", "momentY", "momentXX", "momentXY", "momentYY"):
+            out["moments." + k] = getattr(mp, k)
+        sp = StatisticsPen(None); draw(r, sp)
+        out["stats.area"] = sp.area
+        if abs(sp.area) > 1e-3 * m * m:
+            out["stats.meanX"], out["stats.meanY"] = sp.meanX, sp.meanY
+        for i, tp in enumerate(tests):
+            pi = PointInsidePen(None, tp); draw(r, pi); out["inside%d" % i] = pi.getResult()
+            pe = PointInsidePen(None, tp, evenOdd=True); draw(r, pe); out["insideEO%d" % i] = pe.getResult()
+        return out
+
+    bb = O.contours_bounds(cs) or (0, 0, 1, 1)
+    tests = [(rnd.uniform(bb[0] - 1, bb[2] + 1), rnd.uniform(bb[1] - 1, bb[3] + 1)) for _ in range(5)]
+    A = lib_call(ctx, "measuring pens", "original", lambda: measure(rec), w)
+    B = lib_call(ctx, "measuring pens", "decomposed", lambda: measure(plain), w)
+    deg = {"bounds": 1, "controlBounds": 1, "area": 2, "perimeter": 1, "moments.area": 2, "moments.momentX": 3, "moments.momentY": 3,
+           "moments.momentXX": 4, "moments.momentXY": 4, "moments.momentYY": 4, "stats.area": 2, "stats.meanX": 1, "stats.meanY": 1}
+    nseg = sum(len(c["segs"]) for c in cs) + 1
+    for k in A:
+        if k not in B:
+            continue
+        ctx.judged()
+        a, b = A[k], B[k]
+        if k.startswith("inside"):
+            bad = a != b
+        elif a is None or b is None:
+            bad = (a is None) != (b is None)
+        else:
+            # both spellings differ only by floating point dust in the split points (<= 1 ulp): 1e-9 relative to the
+            # natural scale of the quantity (magnitude^degree x number of segments); means divide by the area
+            scale = max(1.0, m) ** deg[k] * nseg
+            if k.startswith("stats.mean"):
+                scale = max(1.0, m) ** 3 * nseg / abs(A["stats.area"])
+            av = a if isinstance(a, tuple) else (a,)
+            bv = b if isinstance(b, tuple) else (b,)
+            bad = any(abs(x - y) > 1e-9 * scale for x, y in zip(av, bv))
+        if bad:
+            violation(ctx, k.split(".")[0].rstrip("0123456789EO") + "(pen)", "original-vs-decomposed", "measure", "%s differs between the two spellings" % k.rstrip("0123456789"),
+                      feats if len(feats) < 60 else "super" if "c3" in feats else "other",
+                      "%s: %r for the outline as drawn, %r for its decomposed spelling" % (k, a, b), dict(w, test_points=tests))
+    # MomentsPen area against the Green integral
+    ctx.judged()
+    want = sum((O.contour_area(c) for c in cs), F(0))
+    if abs(F(A["moments.area"]) - want) > F(1, 10 ** 9) * O.area_scale(cs):
+        violation(ctx, "MomentsPen", "area", "area", "area differs from the Green integral", "?", "MomentsPen.area %r, Green %r" % (A["moments.area"], float(want)), w)
+    _notes["judged/measuring-pens"] += 1
+    ctx.nontrivial("measure2|" + feats)
+
+
+FAMILIES["measure2"] = fam_measure2
